@@ -1,8 +1,8 @@
 /-
 Model driver for C03 (pattern matching and unpacking). Stateful line protocol:
 
-  cfg <0|1> <0|1> <0|1> <0|1>      which repairs the mirrored code contains (Match.Cfg: sizeNullJumps,
-                                   nestedLast, accessFalls, rangeSlices); response `ok`
+  cfg <0|1>×5                      which repairs the mirrored code contains (Match.Cfg: sizeNullJumps,
+                                   nestedLast, accessFalls, rangeSlices, subjectCopied); response `ok`
   arms <nvars> <v|e|m> <arm>*      set the current match; response `ok`
       arm   := (arm (<alt>*) <guard>)            no alternatives = `else`
       alt   := (one <pat>) | (many <pat>*)
@@ -16,7 +16,7 @@ Model driver for C03 (pattern matching and unpacking). Stateful line protocol:
       `A<i> <regs> T:<trace>` | `N <regs> T:<trace>` | `E:<class>`
       and, after ` ; `, the guide-level (declarative) verdict for the same case
       `GA<i> <bound>` | `GN`  — evaluated by `Drivers` glue `guideArms` below
-      (regs = registers 0..nvars-1, plus register 99 in mode v; unassigned = sU)
+      (regs = registers 0..nvars-1, then the subject locals 99, 98, …; unassigned = sU)
   ma (<tgt>*) <val>|(g <val>*)     multi-assignment; tgt := <n> | _ ; response `<regs> = <value>`
   mt (<tgt>*) <val>*               multi-assignment from a temporary tuple
   for (<tgt>*) <val>               response: registers at every body entry, `|`-separated
@@ -115,8 +115,14 @@ structure St where
 def sentinel : Val := .str [85]   -- 'U'
 def env0 : Env := fun _ => sentinel
 
-def regsStr (n : Nat) (withSubj : Bool) (ρ : Env) : String :=
-  " ".intercalate (((List.range n).map (fun i => valStr (ρ i))) ++ (if withSubj then [valStr (ρ 99)] else []))
+/-- registers 0..n-1, then the `k` subject locals (registers 99, 98, …) -/
+def regsStr (n : Nat) (k : Nat) (ρ : Env) : String :=
+  " ".intercalate (((List.range n).map (fun i => valStr (ρ i))) ++ ((List.range k).map (fun i => valStr (ρ (99 - i)))))
+
+/-- the subject locals `s, t, u` hold the subject values in every mode -/
+def setSubjects : List Val → Nat → Env → Env
+  | [], _, ρ => ρ
+  | v :: vs, i, ρ => setSubjects vs (i + 1) (ρ.set (99 - i) v)
 
 def errStr : Err → String
   | .geNull => "E:ge-null" | .index => "E:index" | .slice => "E:slice" | .access => "E:access"
@@ -212,7 +218,7 @@ def dedupNames : List Name → List Name
   | [] => []
   | x :: xs => if xs.contains x then dedupNames xs else x :: dedupNames xs
 
-def armBinds99 (a : Arm) : Bool := a.alts.any (fun al => (altVars al).contains 99)
+def armBinds99 (a : Arm) : Bool := a.alts.any (fun al => (altVars al).any (fun x => x ≥ 97))
 def altEarlyFree : Alt → Bool
   | .one p => earlyFree p
   | .many ps => earlyFreeL ps true
@@ -232,8 +238,8 @@ def step (st : St) (line : String) : St × String :=
        ({ st with nvars := n, mode := mode, arms := as },
         s!"ok early={if as.any armEarly then 1 else 0} binds99={if as.any armBinds99 then 1 else 0}")
      | _, _ => (st, "bad-request"))
-  | [.atom "cfg", .atom a, .atom b, .atom c, .atom d] =>
-    ({ st with cfg := ⟨a == "1", b == "1", c == "1", d == "1"⟩ }, "ok")
+  | [.atom "cfg", .atom a, .atom b, .atom c, .atom d, .atom e] =>
+    ({ st with cfg := ⟨a == "1", b == "1", c == "1", d == "1", e == "1"⟩ }, "ok")
   | .atom "s" :: vals =>
     (match vals.mapM parseVal with
      | none => (st, "bad-request")
@@ -246,13 +252,13 @@ def step (st : St) (line : String) : St × String :=
        match subj? with
        | none => (st, "bad-request")
        | some subj =>
-         let isVar := st.mode == "v"
-         let ρ0 : Env := if isVar then env0.set 99 (vs.headD .null) else env0
+         let k := vs.length
+         let ρ0 : Env := setSubjects vs 0 env0
          let r := evalMatch F st.cfg subj st.arms ρ0
          let tr := ",".intercalate (r.trace.map evStr)
          let code := match r.out with
-           | .arm i ρ => s!"A{i} {regsStr st.nvars isVar ρ} T:{tr}"
-           | .none ρ => s!"N {regsStr st.nvars isVar ρ} T:{tr}"
+           | .arm i ρ => s!"A{i} {regsStr st.nvars k ρ} T:{tr}"
+           | .none ρ => s!"N {regsStr st.nvars k ρ} T:{tr}"
            | .err e => errStr e
          let gv : Val := match st.mode, vs with
            | "m", vs => .tuple vs
@@ -271,7 +277,7 @@ def step (st : St) (line : String) : St × String :=
        match rhs with
        | .list (.atom "g" :: vals) =>
          (match vals.mapM parseVal with
-          | some vs => (st, s!"{regsStr n false (assign tg vs env0)} = <iter>")
+          | some vs => (st, s!"{regsStr n 0 (assign tg vs env0)} = <iter>")
           | none => (st, "bad-request"))
        | x =>
          match parseVal x with
@@ -279,12 +285,12 @@ def step (st : St) (line : String) : St × String :=
          | some v =>
            match multiAssign tg v env0 with
            | none => (st, "E:iter")
-           | some (ρ, r) => (st, s!"{regsStr n false ρ} = {valStr r}"))
+           | some (ρ, r) => (st, s!"{regsStr n 0 ρ} = {valStr r}"))
   | .atom "mt" :: .list ts :: vals =>
     (match parseTgts ts, vals.mapM parseVal with
      | some tg, some vs =>
        let (ρ, r) := multiAssignTemp tg vs env0
-       (st, s!"{regsStr (maxTgt tg) false ρ} = {valStr r}")
+       (st, s!"{regsStr (maxTgt tg) 0 ρ} = {valStr r}")
      | _, _ => (st, "bad-request"))
   | [.atom "for", .list ts, it] =>
     (match parseTgts ts, parseVal it with
@@ -293,7 +299,7 @@ def step (st : St) (line : String) : St × String :=
         | none => (st, "E:iter")
         | some (steps, ρ) =>
           let n := maxTgt tg
-          (st, " | ".intercalate (steps.map (regsStr n false)) ++ " || " ++ regsStr n false ρ))
+          (st, " | ".intercalate (steps.map (regsStr n 0)) ++ " || " ++ regsStr n 0 ρ))
      | _, _ => (st, "bad-request"))
   | _ => (st, "bad-request")
 
